@@ -1167,7 +1167,7 @@ def run(tier: str = "quick", seed: int = 0) -> dict:
     import multiprocessing as mp
 
     t0 = time.time()
-    n_hist = 64000 if tier == "quick" else 1000000
+    n_hist = 64000 if tier == "quick" else 600000
     max_ops = 12
     procs = min(16, os.cpu_count() or 2)
     per = 250 if tier == "quick" else 2000
